@@ -40,17 +40,17 @@ class KDColorJitter(KDStochasticTransform):
         # brightness/contrast/saturation are centered at 1. and should be >= 0
         if self.brightness_lb is not None:
             self.brightness_lb = max(0, 1 - (1 - self.og_brightness_lb) * factor)
-            self.brightness_ub = 1. + (1. - self.og_brightness_ub) * factor
+            self.brightness_ub = 1. + (self.og_brightness_ub - 1.) * factor
         if self.contrast_lb is not None:
             self.contrast_lb = max(0, 1 - (1 - self.og_contrast_lb) * factor)
-            self.contrast_ub = 1. + (1. - self.og_contrast_ub) * factor
+            self.contrast_ub = 1. + (self.og_contrast_ub - 1.) * factor
         if self.saturation_lb is not None:
             self.saturation_lb = max(0, 1 - (1 - self.og_saturation_lb) * factor)
-            self.saturation_ub = 1. + (1. - self.og_saturation_ub) * factor
+            self.saturation_ub = 1. + (self.og_saturation_ub - 1.) * factor
         # hue is centered at 0. and -0.5 <= hue <= 0.5
         if self.hue_lb is not None:
             self.hue_lb = max(-0.5, self.og_hue_lb * factor)
-            self.hue_ub = max(0.5, self.og_hue_ub * factor)
+            self.hue_ub = min(0.5, self.og_hue_ub * factor)
 
     def __call__(self, x, ctx=None):
         fn_idx, brightness_factor, contrast_factor, saturation_factor, hue_factor = self.get_params()
